@@ -232,12 +232,16 @@ def run(ck, F, tier):
             MSGV = var("msg")
             e2.bind(fors[0]["pat"], MSGV, en)
             sv = e2.eval(structs[0], en)
-            total = None
-            for k, v2 in en.items():
-                if k.startswith("llr#"):
-                    total = v2
             dest_ok = sv[2].get("dest") == var("msg.source")
             val = sv[2].get("value")
+            # the total is whatever the own contribution is subtracted from
+            total = None
+            if is8:
+                va = single_atom(val) if isinstance(val, Poly) else None
+                if va and atom_fn(va) == ARI + ty + "::clip" and isinstance(atom_args(va)[0], Poly):
+                    total = atom_args(va)[0] + var("msg.value")
+            elif isinstance(val, Poly):
+                total = val + var("msg.value")
             whole = d == ("elems", var("check_messages"))
             if is8:
                 CL = ARI + ty + "::clip"
